@@ -314,7 +314,7 @@ static long g_id = 0;
 template <class T> void mode_ref_type(vr::rng &g, const char *vt, int reps) {
     static const int NS[6] = {6, 12, 20, 33, 45, 60};
     for (int rep = 0; rep < reps; ++rep) for (int ni = 0; ni < 6; ++ni) for (int sym = 0; sym < 2; ++sym) {
-        int n = NS[ni]; if (!vr::thorough() && ((ni + rep + sym) % 2)) continue;      // quick: half of the grid
+        int n = NS[ni];
         int K = std::min(n, 14);
         for (int pk = 0; pk < (sym ? 2 : 3); ++pk) {
             problem<T> pb = make_problem<T>(g, n, sym, pk);
@@ -495,7 +495,11 @@ static void mode_tiny(int amax, int amaxcg, int kmax, bool widesets) {
             long det = (long)a[0] * a[3] - (long)a[1] * a[2];
             if (det == 0) continue;
             if (iscg && !(a[1] == a[2] && a[0] > 0 && det > 0)) continue;
+            int pidx = 0;
             for (auto &fv : FS) for (auto &xv : XS) for (auto &pv : PS) {
+                ++pidx;
+                // quick tier: every matrix with one of the two preconditioners (alternating); CG keeps both
+                if (!widesets && !iscg && ((code + pidx) % 2)) continue;
                 if (iscg && !(pv[1] == pv[2] && pv[0] > 0 && pv[0] * pv[3] - pv[1] * pv[2] > 0)) continue;
                 ++nsys;
                 problem<T> pb; pb.n = n; pb.A = dmat<W>(n); pb.P = dmat<W>(n);
@@ -534,11 +538,11 @@ int main(int argc, char **argv) {
     else if (mode == "ref") {
         std::string vt = argc > 2 ? argv[2] : "real";
         vr::rng g(seed * 7907 + (vt == "real" ? 1 : 2));
-        if (vt == "real") mode_ref_type<double>(g, "real", th ? 4 : 1); else mode_ref_type<std::complex<double>>(g, "complex", th ? 4 : 1);
+        if (vt == "real") mode_ref_type<double>(g, "real", th ? 6 : 1); else mode_ref_type<std::complex<double>>(g, "complex", th ? 6 : 1);
     } else if (mode == "prop") {
         std::string vt = argc > 2 ? argv[2] : "real";
         vr::rng g(seed * 6271 + (vt == "real" ? 3 : 4));
-        if (vt == "real") mode_prop_type<double>(g, "real", th ? 4 : 1); else mode_prop_type<std::complex<double>>(g, "complex", th ? 4 : 1);
+        if (vt == "real") mode_prop_type<double>(g, "real", th ? 12 : 3); else mode_prop_type<std::complex<double>>(g, "complex", th ? 12 : 3);
     } else { std::cerr << "unknown mode\n"; return 2; }
     vr::obj o; o.str("e", "End"); vr::emit(o.done());
     return 0;
